@@ -1,1 +1,343 @@
 // Kani harnesses compiled inside rs-matter/src/utils/storage/parsebuf.rs (module `verif_kani`).
+
+mod c17 {
+    use super::*;
+    use crate::utils::storage::WriteBuf;
+
+    /// Largest buffer considered (the slice length is symbolic in `0..=N`).
+    const N: usize = 24;
+
+    /// Representation invariant: `read_off..read_off+left` is the unread window of the slice.
+    fn inv(pb: &ParseBuf) -> bool {
+        pb.read_off <= pb.buf.len() && pb.left <= pb.buf.len() - pb.read_off
+    }
+
+    fn any_pb(arr: &mut [u8; N]) -> ParseBuf<'_> {
+        let len: usize = kani::any();
+        kani::assume(len <= N);
+        let read_off: usize = kani::any();
+        let left: usize = kani::any();
+        kani::assume(read_off <= len && left <= len - read_off);
+        ReadBuf {
+            buf: &mut arr[..len],
+            read_off,
+            left,
+        }
+    }
+
+    /// Value of the `k`-byte little-endian field at `off` (from the definition: byte j has weight 256^j).
+    fn le_value(bytes: &[u8; N], off: usize, k: usize) -> u64 {
+        let mut v = 0u64;
+        let mut j = 0;
+        while j < k {
+            v |= (bytes[off + j] as u64) << (8 * j);
+            j += 1;
+        }
+        v
+    }
+
+    fn scalar_contract(k: usize) {
+        let mut arr: [u8; N] = kani::any();
+        let before = arr;
+        let mut pb = any_pb(&mut arr);
+        let (len, off, left) = (pb.buf.len(), pb.read_off, pb.left);
+
+        let r: Result<u64, Error> = match k {
+            1 => pb.le_u8().map(|v| v as u64),
+            2 => pb.le_u16().map(|v| v as u64),
+            4 => pb.le_u32().map(|v| v as u64),
+            _ => pb.le_u64(),
+        };
+
+        let enough = left >= k;
+        kani::assert(r.is_ok() == enough, "C17.parsebuf.scalar.ok_iff_enough_left");
+        match &r {
+            Ok(v) => {
+                kani::assert(*v == le_value(&before, off, k), "C17.parsebuf.scalar.value_little_endian");
+                kani::assert(pb.read_off == off + k && pb.left == left - k, "C17.parsebuf.scalar.consumes_width");
+            }
+            Err(e) => {
+                kani::assert(e.code() == ErrorCode::TruncatedPacket, "C17.parsebuf.scalar.err_is_truncated");
+                kani::assert(pb.read_off == off && pb.left == left, "C17.parsebuf.scalar.refusal_consumes_nothing");
+            }
+        }
+        kani::assert(pb.buf.len() == len, "C17.parsebuf.scalar.frame_len");
+        kani::assert(inv(&pb), "C17.parsebuf.scalar.invariant_kept");
+        let i: usize = kani::any();
+        kani::assume(i < len);
+        kani::assert(pb.buf[i] == before[i], "C17.parsebuf.scalar.frame_bytes");
+
+        kani::cover!(enough && left == k && off > 0, "exactly the last field");
+        kani::cover!(k == 1 || (!enough && left > 0), "truncated field (impossible for a 1-byte field)");
+        kani::cover!(!enough && left == 0, "nothing left");
+        kani::cover!(enough && off + left < len, "window ends before the slice (tail taken)");
+    }
+
+    // TIER: quick
+    // KIND: bounded (buffer length <= 24 bytes; the code is loop-free)
+    #[kani::proof]
+    #[kani::unwind(10)]
+    fn c17_parsebuf_le_u8() {
+        scalar_contract(1);
+    }
+
+    // TIER: quick
+    // KIND: bounded (buffer length <= 24 bytes; the code is loop-free)
+    #[kani::proof]
+    #[kani::unwind(10)]
+    fn c17_parsebuf_le_u16() {
+        scalar_contract(2);
+    }
+
+    // TIER: quick
+    // KIND: bounded (buffer length <= 24 bytes; the code is loop-free)
+    #[kani::proof]
+    #[kani::unwind(10)]
+    fn c17_parsebuf_le_u32() {
+        scalar_contract(4);
+    }
+
+    // TIER: quick
+    // KIND: bounded (buffer length <= 24 bytes; the code is loop-free)
+    #[kani::proof]
+    #[kani::unwind(10)]
+    fn c17_parsebuf_le_u64() {
+        scalar_contract(8);
+    }
+
+    // TIER: quick
+    // KIND: bounded (buffer length <= 24 bytes; the code is loop-free; `size` is any usize)
+    #[kani::proof]
+    fn c17_parsebuf_tail() {
+        let mut arr: [u8; N] = kani::any();
+        let before = arr;
+        let mut pb = any_pb(&mut arr);
+        let (len, off, left) = (pb.buf.len(), pb.read_off, pb.left);
+        let size: usize = kani::any();
+        let i: usize = kani::any();
+
+        let enough = size <= left;
+        match pb.tail(size) {
+            Ok(t) => {
+                kani::assert(enough, "C17.parsebuf.tail.ok_only_if_enough_left");
+                kani::assert(t.len() == size, "C17.parsebuf.tail.len");
+                if i < size {
+                    // the last `size` bytes of the unread window
+                    kani::assert(t[i] == before[off + left - size + i], "C17.parsebuf.tail.is_end_of_window");
+                }
+            }
+            Err(e) => {
+                kani::assert(!enough, "C17.parsebuf.tail.err_only_if_short");
+                kani::assert(e.code() == ErrorCode::TruncatedPacket, "C17.parsebuf.tail.err_is_truncated");
+            }
+        }
+        kani::assert(pb.read_off == off, "C17.parsebuf.tail.read_position_kept");
+        kani::assert(pb.left == if enough { left - size } else { left }, "C17.parsebuf.tail.window_shrinks_by_size");
+        kani::assert(pb.buf.len() == len, "C17.parsebuf.tail.frame_len");
+        kani::assert(inv(&pb), "C17.parsebuf.tail.invariant_kept");
+        let j: usize = kani::any();
+        kani::assume(j < len);
+        kani::assert(pb.buf[j] == before[j], "C17.parsebuf.tail.frame_bytes");
+
+        kani::cover!(enough && size == left && size > 0, "whole window as tail");
+        kani::cover!(enough && size == 0, "empty tail");
+        kani::cover!(!enough && size == usize::MAX, "absurd size refused");
+    }
+
+    // TIER: quick
+    // KIND: bounded (buffer length <= 24 bytes; the code is loop-free; `size` is any usize)
+    #[kani::proof]
+    fn c17_parsebuf_parse_head_with() {
+        let mut arr: [u8; N] = kani::any();
+        let before = arr;
+        let mut pb = any_pb(&mut arr);
+        let (len, off, left) = (pb.buf.len(), pb.read_off, pb.left);
+        let size: usize = kani::any();
+
+        // the callback sees the buffer positioned at the head being parsed
+        let r = pb.parse_head_with(size, |x| (x.read_off, x.left));
+
+        let enough = left >= size;
+        kani::assert(r.is_ok() == enough, "C17.parsebuf.head.ok_iff_enough_left");
+        match &r {
+            Ok(seen) => {
+                kani::assert(*seen == (off, left), "C17.parsebuf.head.callback_sees_unconsumed_head");
+                kani::assert(pb.read_off == off + size && pb.left == left - size, "C17.parsebuf.head.consumes_size");
+            }
+            Err(e) => {
+                kani::assert(e.code() == ErrorCode::TruncatedPacket, "C17.parsebuf.head.err_is_truncated");
+                kani::assert(pb.read_off == off && pb.left == left, "C17.parsebuf.head.refusal_consumes_nothing");
+            }
+        }
+        kani::assert(pb.buf.len() == len, "C17.parsebuf.head.frame_len");
+        kani::assert(inv(&pb), "C17.parsebuf.head.invariant_kept");
+        let j: usize = kani::any();
+        kani::assume(j < len);
+        kani::assert(pb.buf[j] == before[j], "C17.parsebuf.head.frame_bytes");
+
+        kani::cover!(enough && size == left && size > 0, "whole window");
+        kani::cover!(!enough && size == usize::MAX, "absurd size refused");
+    }
+
+    // TIER: quick
+    // KIND: bounded (buffer length <= 24 bytes; the code is loop-free)
+    #[kani::proof]
+    fn c17_parsebuf_views() {
+        let mut arr: [u8; N] = kani::any();
+        let before = arr;
+        let mut pb = any_pb(&mut arr);
+        let (len, off, left) = (pb.buf.len(), pb.read_off, pb.left);
+        let i: usize = kani::any();
+
+        kani::assert(pb.read_off() == off, "C17.parsebuf.view.read_off");
+        kani::assert(pb.slice_range() == (off, off + left), "C17.parsebuf.view.slice_range");
+        {
+            let s = pb.as_slice();
+            kani::assert(s.len() == left, "C17.parsebuf.view.as_slice_len");
+            if i < left {
+                kani::assert(s[i] == before[off + i], "C17.parsebuf.view.as_slice_is_unread_window");
+            }
+        }
+        {
+            let s = pb.as_mut_slice();
+            kani::assert(s.len() == left, "C17.parsebuf.view.as_mut_slice_len");
+            if i < left {
+                kani::assert(s[i] == before[off + i], "C17.parsebuf.view.as_mut_slice_is_unread_window");
+            }
+        }
+        {
+            let s = pb.parsed_as_slice();
+            kani::assert(s.len() == off, "C17.parsebuf.view.parsed_len");
+            if i < off {
+                kani::assert(s[i] == before[i], "C17.parsebuf.view.parsed_is_consumed_prefix");
+            }
+        }
+
+        // set_len: PRECONDITION the new window stays inside the slice
+        let l: usize = kani::any();
+        kani::assume(l <= len - off);
+        pb.set_len(l);
+        kani::assert(pb.left == l && pb.read_off == off, "C17.parsebuf.set_len.sets_window");
+        kani::assert(inv(&pb), "C17.parsebuf.set_len.invariant_kept");
+        kani::assert(pb.as_slice().len() == l, "C17.parsebuf.set_len.view_after");
+
+        pb.reset();
+        kani::assert(pb.read_off == 0 && pb.left == len && pb.buf.len() == len, "C17.parsebuf.reset.whole_slice_unread");
+        let j: usize = kani::any();
+        kani::assume(j < len);
+        kani::assert(pb.buf[j] == before[j], "C17.parsebuf.view.frame_bytes");
+
+        kani::cover!(off > 0 && left > 0 && off + left < len, "all regions non-empty");
+        kani::cover!(left == 0, "nothing left");
+    }
+
+    // TIER: quick
+    // KIND: bounded (buffer lengths <= 24 bytes; the code is loop-free)
+    #[kani::proof]
+    fn c17_parsebuf_load() {
+        let mut arr: [u8; N] = kani::any();
+        let before = arr;
+        let mut pb = any_pb(&mut arr);
+        let (len, off, left) = (pb.buf.len(), pb.read_off, pb.left);
+        let mut arr2: [u8; N] = kani::any();
+        let src_bytes = arr2;
+        let src = any_pb(&mut arr2);
+        let (soff, sleft) = (src.read_off, src.left);
+
+        let r = pb.load(&src);
+
+        let fits = soff + sleft <= len;
+        kani::assert(r.is_ok() == fits, "C17.parsebuf.load.ok_iff_fits");
+        kani::assert(inv(&pb), "C17.parsebuf.load.invariant_kept");
+        let i: usize = kani::any();
+        if fits {
+            kani::assert(pb.read_off == soff && pb.left == sleft, "C17.parsebuf.load.cursors_copied");
+            if i < soff + sleft {
+                kani::assert(pb.buf[i] == src_bytes[i], "C17.parsebuf.load.bytes_copied");
+            } else if i < len {
+                kani::assert(pb.buf[i] == before[i], "C17.parsebuf.load.frame_bytes");
+            }
+        } else {
+            kani::assert(pb.read_off == off && pb.left == left, "C17.parsebuf.load.refusal_keeps_cursors");
+            if i < len {
+                kani::assert(pb.buf[i] == before[i], "C17.parsebuf.load.refusal_keeps_bytes");
+            }
+        }
+
+        kani::cover!(fits && sleft > 0 && soff > 0, "loaded");
+        kani::cover!(!fits, "too large");
+    }
+
+    /// decode(encode(x)) == x for the primitives: a message assembled with every `WriteBuf`
+    /// primitive (head room, scalars of each width, a byte string, a prepended header) parses
+    /// back field by field, the trailing byte string comes back through `tail`, and nothing
+    /// outside the written window changed.
+    // TIER: quick
+    // KIND: bounded (fixed message shape: header <= 4 bytes, byte string <= 5 bytes, buffer 32 bytes)
+    #[kani::proof]
+    #[kani::unwind(10)]
+    fn c17_writebuf_parsebuf_roundtrip() {
+        const B: usize = 32;
+        let mut arr: [u8; B] = kani::any();
+        let before = arr;
+
+        let hdr: [u8; 4] = kani::any();
+        let h: usize = kani::any();
+        kani::assume(h <= 4);
+        let reserve: usize = kani::any();
+        kani::assume(h <= reserve && reserve <= 6);
+        let (a, b, c, d): (u8, u16, u32, u64) = (kani::any(), kani::any(), kani::any(), kani::any());
+        let blob: [u8; 5] = kani::any();
+        let n: usize = kani::any();
+        kani::assume(n <= 5);
+
+        let (start, end) = {
+            let mut wb = WriteBuf::new(&mut arr);
+            let ok = wb.reserve(reserve).is_ok()
+                && wb.le_u8(a).is_ok()
+                && wb.le_u16(b).is_ok()
+                && wb.le_u32(c).is_ok()
+                && wb.le_u64(d).is_ok()
+                && wb.append(&blob[..n]).is_ok()
+                && wb.prepend(&hdr[..h]).is_ok();
+            kani::assert(ok, "C17.roundtrip.primitives.all_writes_fit");
+            (wb.get_start(), wb.get_tail())
+        };
+        kani::assert(start == reserve - h && end == reserve + 15 + n, "C17.roundtrip.primitives.window");
+
+        // frame: nothing outside the written window changed
+        let i: usize = kani::any();
+        kani::assume(i < B);
+        if i < start || i >= end {
+            kani::assert(arr[i] == before[i], "C17.roundtrip.primitives.outside_window_untouched");
+        }
+
+        let mut pb = ParseBuf::new(&mut arr[start..end]);
+        // the trailing byte string first (tail handling), then the head in order
+        let j: usize = kani::any();
+        {
+            let t = pb.tail(n);
+            kani::assert(t.is_ok(), "C17.roundtrip.primitives.tail_ok");
+            if let Ok(t) = t {
+                kani::assert(t.len() == n, "C17.roundtrip.primitives.tail_len");
+                if j < n {
+                    kani::assert(t[j] == blob[j], "C17.roundtrip.primitives.tail_bytes");
+                }
+            }
+        }
+        let mut hk = 0;
+        while hk < h {
+            kani::assert(pb.le_u8().ok() == Some(hdr[hk]), "C17.roundtrip.primitives.header_bytes");
+            hk += 1;
+        }
+        kani::assert(pb.le_u8().ok() == Some(a), "C17.roundtrip.primitives.u8");
+        kani::assert(pb.le_u16().ok() == Some(b), "C17.roundtrip.primitives.u16");
+        kani::assert(pb.le_u32().ok() == Some(c), "C17.roundtrip.primitives.u32");
+        kani::assert(pb.le_u64().ok() == Some(d), "C17.roundtrip.primitives.u64");
+        kani::assert(pb.as_slice().is_empty(), "C17.roundtrip.primitives.nothing_left");
+        kani::assert(pb.le_u8().is_err(), "C17.roundtrip.primitives.exhausted_refuses");
+
+        kani::cover!(h == 4 && n == 5 && reserve == 6, "largest shape");
+        kani::cover!(h == 0 && n == 0, "smallest shape");
+    }
+}
